@@ -378,6 +378,10 @@ type CondEdge struct {
 }
 
 func DominatingConds(b *ssa.BasicBlock) []CondEdge {
+	return dominatingConds(b, 0)
+}
+
+func dominatingConds(b *ssa.BasicBlock, depth int) []CondEdge {
 	var out []CondEdge
 	for cur := b; cur != nil; cur = cur.Idom() {
 		idom := cur.Idom()
@@ -391,10 +395,40 @@ func DominatingConds(b *ssa.BasicBlock) []CondEdge {
 		// which successor leads (exclusively) to cur?
 		for si, succ := range idom.Succs {
 			if succ == cur && len(cur.Preds) == 1 {
-				out = append(out, CondEdge{Cond: last.Cond, Branch: si == 0, If: last})
+				out = append(out, expandBoolPhi(CondEdge{Cond: last.Cond, Branch: si == 0, If: last}, depth)...)
 			}
 		}
 	}
+	return out
+}
+
+// expandBoolPhi: a short-circuit && / || compiled into a phi of booleans. If the phi is true and all
+// edges but one are the constant false, control came through that one edge with its value true (and
+// everything that dominates that predecessor held); dually for || and false.
+func expandBoolPhi(ce CondEdge, depth int) []CondEdge {
+	phi, ok := ce.Cond.(*ssa.Phi)
+	if !ok || depth > 6 {
+		return []CondEdge{ce}
+	}
+	var live []int
+	for i, e := range phi.Edges {
+		if c, isC := e.(*ssa.Const); isC && c.Value != nil && c.Value.Kind() == constant.Bool && constant.BoolVal(c.Value) != ce.Branch {
+			continue // this edge would give the other truth value
+		}
+		live = append(live, i)
+	}
+	if len(live) != 1 {
+		return []CondEdge{ce}
+	}
+	i := live[0]
+	pred := phi.Block().Preds[i]
+	out := []CondEdge{ce}
+	if _, isC := phi.Edges[i].(*ssa.Const); !isC {
+		out = append(out, expandBoolPhi(CondEdge{Cond: phi.Edges[i], Branch: ce.Branch, If: ce.If}, depth+1)...)
+	}
+	// conditions that held when control left the predecessor: those dominating it, plus the branch that led from
+	// its own dominator chain
+	out = append(out, dominatingConds(pred, depth+1)...)
 	return out
 }
 
